@@ -131,6 +131,11 @@ def run_programs(ck, vecs, h, validate_trace=True):
         label = {"tree": "Run modified the syntax tree", "envset": "Run wrote to the user's Environ",
                  "enveach": "the user's Environ enumerates differently after Run",
                  "rerun": "same tree behaves differently when run again after Reset"}[kind]
+        if kind == "envset":
+            # identify the write, not the program: every program trips over the same Set
+            sets = res["runners"][0].get("env_sets") or ["?"]
+            ck.violation("%s: first Set(%s)" % (label, sets[0]), rec)
+            continue
         ck.violation("%s: %s" % (label, " ; ".join(stmts)), rec)
     # ---- (V) trace validation of everything recorded
     if validate_trace and events:
